@@ -94,6 +94,47 @@ theorem c15_after_trigger (cfg : List Trig) (s : List Ctx) (ev : Event) (c : Ctx
       exact ⟨hpc.2, by simp [hpc.1]⟩
     · simp [hk] at hpc
 
+def closedOf : List Eff → List (Ctx × Event)
+  | [] => []
+  | .closed c ev :: w => (c, ev) :: closedOf w
+  | _ :: w => closedOf w
+
+theorem closedOf_append (a b : List Eff) : closedOf (a ++ b) = closedOf a ++ closedOf b := by
+  induction a with
+  | nil => rfl
+  | cons e w ih => cases e <;> simp [closedOf, ih]
+
+theorem closedOf_fired (l : List Action) (ev : Event) : closedOf (l.map (fun a => Eff.fired a ev)) = [] := by
+  induction l with
+  | nil => rfl
+  | cons a l ih => simp [closedOf, ih]
+
+/-- **completion does not depend on the installed tracepoints** — pending callbacks are processed *before* the
+    early return for an empty tracepoint list: which contexts an event completes, and what is left of the stack
+    below them, is the same under every configuration, in particular under the empty one (a poll that delivered no
+    tracepoints, a shutdown, while the instrumented function was still running).  With the empty list the event
+    does exactly the callback phase. -/
+theorem c15_completion_config_independent (cfg cfg' : List Trig) (s : List Ctx) (ev : Event) :
+    closedOf (traceCall cfg (norm s) ev).2 = closedOf (traceCall cfg' (norm s) ev).2 ∧
+    traceCall [] (norm s) ev = (norm (pcPhase s ev).1, (pcPhase s ev).2) ∧
+    (∀ c r, s = c :: r → isCbKind ev.kind = true → atLoc c ev = true →
+      traceCall [] (norm s) ev = (norm r, [Eff.closed c ev])) := by
+  have key : ∀ cfg : List Trig, closedOf (traceCall cfg (norm s) ev).2 = closedOf (pcPhase s ev).2 := by
+    intro cfg
+    rw [traceCall, stepWith_norm, sstep_eq]
+    by_cases h : cbsAt (cfg.length : Int) (actionsFor cfg) ev = [] <;>
+      simp [h, closedOf_append, closedOf_fired, closedOf]
+  have hempty : traceCall [] (norm s) ev = (norm (pcPhase s ev).1, (pcPhase s ev).2) := by
+    rw [traceCall, stepWith_norm, sstep_eq]
+    have hf : ∀ n : Int, firedAt n (actionsFor []) ev = [] :=
+      fun n => firedAt_nil_of _ _ _ (by simp [actionsFor, actionsForLocation])
+    simp [cbsAt, hf]
+  refine ⟨by rw [key cfg, key cfg'], hempty, ?_⟩
+  intro c r hs hk ha
+  subst hs
+  rw [hempty]
+  simp [pcPhase, hk, ha]
+
 /-- **the recursion hypothesis is needed** (D27) — `rec(2)` with a method span that fires once (the gate refuses
     the two inner calls): the tree violates `NoClash` only, and the span opened by invocation `[0]` is closed at
     the `return` event of the innermost invocation `[0,0,0]`, in another frame. -/
